@@ -107,22 +107,28 @@ def theorems_in(prop):
     return re.findall(r'^theorem\s+([A-Za-z_][A-Za-z0-9_\'.]*)', src, re.M)
 
 
-def audit(prop, workdir):
-    """#print axioms of every theorem in Props/<prop>.lean -> {name: [axioms]} (None = missing)"""
-    names = theorems_in(prop)
+def audit(prop, workdir, props=None):
+    """#print axioms of every theorem in Props/<p>.lean for p in props (default [prop]) -> {name: [axioms]} (None = missing)"""
+    props = props or [prop]
+    names = [(p, n) for p in props for n in theorems_in(p)]
     f = os.path.join(workdir, f'Audit_{prop}.lean')
     with open(f, 'w') as fh:
-        fh.write(f'import BridgeVerif.Props.{prop}\n')
-        for n in names:
-            fh.write(f'#print axioms Bridge.{prop}.{n}\n')
+        for p in props:
+            fh.write(f'import BridgeVerif.Props.{p}\n')
+        for p, n in names:
+            fh.write(f'#print axioms Bridge.{p}.{n}\n')
     rc, out = sh(['lake', 'env', 'lean', f], cwd=LEAN, timeout=1200)
-    res = {n: None for n in names}
+
+    def key(p, n):
+        return n if p == prop else f'{p}.{n}'
+    res = {key(p, n): None for p, n in names}
     # messages may wrap over lines: normalise
     flat = re.sub(r'\s+', ' ', out)
-    for m in re.finditer(r"'Bridge\.%s\.([^']+)' depends on axioms: \[([^\]]*)\]" % prop, flat):
-        res[m.group(1)] = [a.strip() for a in m.group(2).split(',') if a.strip()]
-    for m in re.finditer(r"'Bridge\.%s\.([^']+)' does not depend on any axioms" % prop, flat):
-        res[m.group(1)] = []
+    for p in props:
+        for m in re.finditer(r"'Bridge\.%s\.([^']+)' depends on axioms: \[([^\]]*)\]" % p, flat):
+            res[key(p, m.group(1))] = [a.strip() for a in m.group(2).split(',') if a.strip()]
+        for m in re.finditer(r"'Bridge\.%s\.([^']+)' does not depend on any axioms" % p, flat):
+            res[key(p, m.group(1))] = []
     return res, out, rc
 
 
